@@ -90,6 +90,9 @@ func (r *run) export(nth int) (*bundle, error) {
 	c := r.c
 	switch c.Path {
 	case "v1v1":
+		if c.Via == "acra-backup" {
+			return cliExport(r.src.dir)
+		}
 		bk, err := filesystem.NewKeyBackuper(r.src.dir, "", &filesystem.DummyStorage{}, fix.V1Encryptor(), r.src.v1())
 		if err != nil {
 			return nil, err
@@ -182,6 +185,9 @@ func (r *run) export(nth int) (*bundle, error) {
 func (r *run) imp(b *bundle) error {
 	switch r.c.Path {
 	case "v1v1":
+		if r.c.Via == "acra-backup" {
+			return cliImport(r.tgt.dir, b)
+		}
 		bk, err := filesystem.NewKeyBackuper(r.tgt.dir, "", &filesystem.DummyStorage{}, fix.V1Encryptor(), nil)
 		if err != nil {
 			return err
